@@ -2980,64 +2980,211 @@ class StageCk:
     def theorems(self, *a: Any, **k: Any) -> Any:
         return Ck.theorems(self, *a, **k)          # type: ignore[arg-type]
 
-    def merge(self) -> None:
-        ck = self._ck
-        ck.obligations.extend(self.obligations)
-        ck.tie_broken.extend(self.tie_broken)
-        ck.notes.extend(self.notes)
-        ck.axioms.update(self.axioms)
-        for k, v in self.extra.items():
+    def payload(self) -> dict:
+        return {'obligations': self.obligations, 'tie_broken': self.tie_broken, 'notes': self.notes, 'axioms': self.axioms,
+                'extra': self.extra, 'log': self._log}
+
+    @staticmethod
+    def merge_payload(ck: Ck, r: dict) -> None:
+        ck.obligations.extend(r.get('obligations', []))
+        ck.tie_broken.extend(r.get('tie_broken', []))
+        ck.notes.extend(r.get('notes', []))
+        ck.axioms.update(r.get('axioms', {}))
+        for k, v in r.get('extra', {}).items():
             ck.extra[k] = v
-        for ev in self._log:
+        for ev in r.get('log', []):
             getattr(ck, ev[0])(*ev[1:])
 
+    def merge(self) -> None:
+        StageCk.merge_payload(self._ck, self.payload())
 
-def theorems_part(c: Any, part: int, nparts: int) -> None:
-    """Ck.theorems('Props/C16.v') for every nparts-th theorem starting at `part` (Print Assumptions walks the whole proof of each
-    theorem: about 0.7 s each, so the list is shared between the lanes).  Same records as Ck.theorems: obligation `theorem:<name>`
-    and the axioms of each."""
+
+def theorems_all(c: Any) -> None:
+    """Ck.theorems('Props/C16.v') at a fraction of the cost.  `Print Assumptions` walks the whole proof of a theorem (about 0.5 s each,
+    the shared lemmas again for every theorem).  The assumptions of a tuple of all theorems are the union of theirs, and one walk
+    visits every shared lemma once (2 s instead of 20 s): when that tuple is closed under the global context, every theorem is.
+    Otherwise (an axiom somewhere) the theorems are printed one by one.  Same records as Ck.theorems: obligation `theorem:<name>` and
+    the axioms of each."""
     import re
     from harness.common import ROCQ, _split_assumptions
-    names = re.findall(r'^\s*(?:Theorem|Lemma|Corollary)\s+([A-Za-z0-9_\']+)', (ROCQ / 'Props/C16.v').read_text(), re.M)[part::nparts]
-    body = 'Require Import SV.Props.C16.\n' + ''.join(f'Print Assumptions {n}.\n' for n in names)
-    rc, out = c.coq_scratch(body, f'assumptions{part}')
-    if rc != 0:
-        c.obligation(f'assumptions:Props/C16.v:{part}', False, out[-2000:])
-        c.tie_broken.append('Print Assumptions failed for Props/C16.v')
-        return
-    for n, b in zip(names, _split_assumptions(out, len(names))):
+    names = re.findall(r'^\s*(?:Theorem|Lemma|Corollary)\s+([A-Za-z0-9_\']+)', (ROCQ / 'Props/C16.v').read_text(), re.M)
+    body = 'Require Import SV.Props.C16.\nDefinition c16_all_theorems := (%s).\nPrint Assumptions c16_all_theorems.\n' % ', '.join(names)
+    rc, out = c.coq_scratch(body, 'assumptions_all')
+    if rc == 0 and out.strip().splitlines()[-1:] == ['Closed under the global context'] and 'Axioms:' not in out:
+        per = [[] for _ in names]
+    else:
+        body = 'Require Import SV.Props.C16.\n' + ''.join(f'Print Assumptions {n}.\n' for n in names)
+        rc, out = c.coq_scratch(body, 'assumptions_each', 1200)
+        if rc != 0:
+            c.obligation('assumptions:Props/C16.v', False, out[-2000:])
+            c.tie_broken.append('Print Assumptions failed for Props/C16.v')
+            return
+        per = _split_assumptions(out, len(names))
+    for n, b in zip(names, per):
         c.axioms[n] = b
         c.obligation(f'theorem:{n}', True, 'Qed; axioms: ' + ('none (closed under the global context)' if not b else ', '.join(b)))
 
 
-def run_stages(ck: Ck, lanes: list[list[tuple[str, Callable[..., Any], tuple]]]) -> Callable[[], bool]:
-    """Start one thread per lane; a lane runs its stages one after the other.  Returns a function that waits for all of them, merges
-    what the stages recorded in the order of the lists (lane by lane) and says whether any of them broke a tie."""
-    import threading
-    boxes = [[StageCk(ck, name) for name, _, _ in lane] for lane in lanes]
+def search_groups(data: bytes, tb: dict) -> list[list[tuple[str, Callable[..., Any], tuple]]]:
+    """The search stages, in two groups of about the same cost (one worker process each)."""
+    return [
+        [('search_longstring', search_longstring, ()),
+         ('search_bundled', search_bundled, ()),
+         ('search_type_text', search_type_text, ()),
+         ('search_multi_db', search_multi_db, (data, tb)),
+         ('search_lazy_synthetic', search_lazy_synthetic, ())],
+        [('search_generated', search_generated, ()),
+         ('search_binary', search_binary, (data,)),
+         ('search_binary_small', search_binary_small, (tb['names'],)),
+         ('search_lazy', search_lazy, (data, tb))],
+    ]
 
-    def work(lane: list[tuple[str, Callable[..., Any], tuple]], bxs: list[StageCk]) -> None:
-        for (_, fn, args), box in zip(lane, bxs):
+
+def search_stage(name: str) -> tuple[Callable[..., Any], tuple]:
+    data = raw_db()
+    tb = db_tables(data)
+    for g in search_groups(data, tb):
+        for n, fn, args in g:
+            if n == name:
+                return fn, args
+    raise KeyError(name)
+
+
+class StageTimeout(RuntimeError):
+    pass
+
+
+def start_workers(ck: Ck, groups: list[list[tuple[str, Callable[..., Any], tuple]]], searches: bool, escalate: bool = False) -> Callable[[], bool]:
+    """Fork one worker process per group; a worker runs its stages one after the other, each with its own StageCk (own random
+    stream, buffered records), and sends what the stage recorded back through a pipe.  Returns a function that waits for all
+    workers, merges the records in the fixed order of the lists (group by group: nothing depends on timing) and says whether any
+    stage broke a tie.
+
+    Robustness: every stage has a wall-clock limit (STAGE_LIMIT_*, at least 5 times what the stage takes on a loaded machine).
+    A SEARCH stage that exceeds it, or raises an exception the oracles do not expect, is a finding about the implementation (a
+    fault made it loop or fail): reported as a violation whose replay re-runs that stage.  A TIE stage (coqc + case generation)
+    that exceeds it is a failure of the check itself: StageTimeout -> INTERNAL-ERROR, never a failed obligation."""
+    import multiprocessing
+    import pickle
+    import signal
+    import traceback
+    workers = []
+    for group in groups:
+        rd, wr = multiprocessing.Pipe(duplex=False)
+        sys.stdout.flush()
+        sys.stderr.flush()
+        pid = os.fork()
+        if pid == 0:
+            code = 0
             try:
-                timed(box.name, fn, box, *args)
-            except BaseException as e:   # noqa: BLE001
-                box.error = e
-                return
-    threads = [threading.Thread(target=work, args=(lane, bxs), name=f'c16-lane{i}') for i, (lane, bxs) in enumerate(zip(lanes, boxes))]
-    for t in threads:
-        t.start()
+                rd.close()
+                for name, fn, args in group:
+                    box = StageCk(ck, name)
+                    box._ties_before = box._ties_before or escalate
+                    wr.send(('start', name))
+                    try:
+                        timed(name, fn, box, *args)
+                    except Exception as e:   # noqa: BLE001
+                        if not searches:
+                            raise
+                        box.violation(f'search-stage-raises:{name}:{type(e).__name__}',
+                                      f'{name} stopped with an exception none of its oracles expects from the implementation: '
+                                      f'{type(e).__name__}: {str(e)[:200]} | {traceback.format_exc()[-700:]}',
+                                      {'kind': 'stage', 'stage': name, 'seed': ck.seed, 'tier': 'thorough' if box.budget(0, 1) else 'quick'})
+                    try:
+                        payload = pickle.dumps(box.payload())
+                    except Exception as e:   # noqa: BLE001
+                        payload = pickle.dumps({'error': f'records of {name} cannot be sent: {e!r}'})
+                    wr.send(('done', name, payload))
+                wr.send(('end',))
+            except BaseException:   # noqa: BLE001
+                try:
+                    wr.send(('crash', traceback.format_exc()[-3000:]))
+                except Exception:   # noqa: BLE001
+                    pass
+                code = 1
+            finally:
+                sys.stdout.flush()
+                sys.stderr.flush()
+                os._exit(code)
+        wr.close()
+        workers.append((pid, rd, [n for n, _, _ in group]))
 
     def join() -> bool:
-        for t in threads:
-            t.join()
-        flat = [box for bxs in boxes for box in bxs]
-        for box in flat:
-            box.merge()
-        for box in flat:
-            if box.error is not None:
-                raise box.error
-        return any(box.tie_broken for box in flat)
+        limit = (STAGE_LIMIT_SEARCH_THOROUGH if (ck.thorough or escalate or ck.tie_broken) else STAGE_LIMIT_SEARCH_QUICK) if searches else STAGE_LIMIT_TIE
+        from multiprocessing.connection import wait as mp_wait
+        results: dict[str, dict] = {}
+        problems: list[str] = []
+        state = {rd: {'pid': pid, 'names': names, 'current': None, 't': time.time()} for pid, rd, names in workers}
+        open_ = set(state)
+
+        def close(rd: Any, kill: bool) -> None:
+            open_.discard(rd)
+            if kill:
+                try:
+                    os.kill(state[rd]['pid'], signal.SIGKILL)
+                except OSError:
+                    pass
+            try:
+                os.waitpid(state[rd]['pid'], 0)
+            except OSError:
+                pass
+            rd.close()
+        while open_:
+            ready = mp_wait(list(open_), 2.0)
+            now = time.time()
+            for rd in list(open_):
+                st = state[rd]
+                if rd in ready:
+                    try:
+                        msg = rd.recv()
+                    except (EOFError, OSError):
+                        problems.append(f'worker for {st["names"]} died (stage {st["current"]})')
+                        close(rd, True)
+                        continue
+                    if msg[0] == 'start':
+                        st['current'], st['t'] = msg[1], now
+                    elif msg[0] == 'done':
+                        results[msg[1]] = pickle.loads(msg[2])
+                        st['current'], st['t'] = None, now
+                    elif msg[0] == 'crash':
+                        problems.append(f'stage {st["current"]} crashed:\n{msg[1]}')
+                        close(rd, True)
+                    else:
+                        close(rd, False)
+                elif now - st['t'] > limit:
+                    cur = st['current']
+                    if searches and cur is not None:
+                        results[cur] = {'log': [('violation', f'search-stage-does-not-terminate:{cur}',
+                                                 f'{cur} did not finish within {limit} s (its normal time is a small fraction of that): a call into the '
+                                                 'implementation does not return', {'kind': 'stage', 'stage': cur, 'seed': ck.seed,
+                                                                                    'tier': 'thorough' if limit == STAGE_LIMIT_SEARCH_THOROUGH else 'quick'}, False)]}
+                    else:
+                        problems.append(f'timeout: stage {cur} of {st["names"]} did not finish within {limit} s')
+                    close(rd, True)
+        broke = False
+        for _, _, names in workers:
+            for n in names:
+                r = results.get(n)
+                if r is None:
+                    continue
+                if 'error' in r:
+                    problems.append(r['error'])
+                    continue
+                StageCk.merge_payload(ck, r)
+                broke = broke or bool(r.get('tie_broken'))
+        if problems:
+            exc = StageTimeout if any(p.startswith('timeout') for p in problems) else RuntimeError
+            raise exc('C16 worker failure (the check itself, nothing is claimed): ' + ' || '.join(problems))
+        return broke
     return join
+
+
+# wall-clock limits per stage (seconds).  Quick search stages take 0.1-16 s at load 25 and up to about 50 s at load 80; with the
+# thorough budgets 5-200 s.  Tie stages: up to 30 s quick, 3-5 min thorough (coqc), and their coq_eval calls carry their own limits.
+STAGE_LIMIT_SEARCH_QUICK = 300
+STAGE_LIMIT_SEARCH_THOROUGH = 1500
+STAGE_LIMIT_TIE = 2400
 
 
 def run(ck: Ck) -> None:
@@ -3078,9 +3225,12 @@ def run(ck: Ck) -> None:
     ]
     ok_t = timed('translate', ck.translate, 'FgdConsts_gen', c16_fgd.translate)
     side = ck.extra.get('translated', {}).get('FgdConsts_gen', {})
-    built = ok_t and timed('build', ck.build, ['Props/C16.vo'])
     data = raw_db()
     tb = db_tables(data)
+    # The searches are pure Python and need no proof build: their worker processes start now, beside the build and the tie stages.
+    first_escalated = bool(ck.thorough or ck.tie_broken)
+    join_searches = start_workers(ck, search_groups(data, tb), searches=True)
+    built = ok_t and timed('build', ck.build, ['Props/C16.vo'])
     join: Callable[[], bool] = lambda: False
     if built:
         lazy_side = side.get('engine_db', {}).get('lazy', {})
@@ -3097,40 +3247,28 @@ def run(ck: Ck) -> None:
         # informational: duplicates in the order lists (harmless, see c16_order_roundtrip)
         vo = side.get('engine_db', {}).get('vt_order', [])
         ck.extra['value_type_order_duplicates'] = sorted({x for x in vo if vo.count(x) > 1})
-        # The tie stages are coqc processes plus case generation; the searches are pure Python.  Two lanes of tie stages run
-        # beside the searches (see StageCk: private random streams, buffered records, so nothing depends on timing).
-        join = run_stages(ck, [
-            [('theorems_0', theorems_part, (0, 2)),
+        # The tie stages are coqc processes plus case generation: five worker processes (see start_workers / StageCk: private
+        # random streams, buffered records merged in the order of these lists, so nothing depends on timing).
+        join = start_workers(ck, [
+            [('theorems', theorems_all, ()),
              ('instance_obligations', lambda c: c.instance_obligations(IMPORTS, INSTANCE_OBLIGATIONS, name='c16'), ()),
              ('data_obligations', data_obligations, (data, tb)),
-             ('corr_writer_reader', corr_writer_reader, ()),
-             ('corr_strdict', corr_strdict, ()),
-             ('corr_lazy', corr_lazy, (data, tb, via)),
-             ('corr_head', corr_head, ())],
-            [('theorems_1', theorems_part, (1, 2)),
-             ('corr_binary_records', corr_binary_records, (data, tb)),
              ('line_data_obligations', line_data_obligations, ()),
-             ('corr_lines', corr_lines, ()),
              ('corr_type_text', corr_type_text, ()),
              ('corr_multi', corr_multi, (via, bool(multi_side.get('effective_first', True)))),
              ('corr_bits', corr_bits, ())],
-        ])
-
-    def searches() -> None:
-        timed('search_longstring', search_longstring, ck)
-        timed('search_bundled', search_bundled, ck)
-        timed('search_generated', search_generated, ck)
-        timed('search_type_text', search_type_text, ck)
-        timed('search_binary', search_binary, ck, data)
-        timed('search_binary_small', search_binary_small, ck, tb['names'])
-        timed('search_lazy', search_lazy, ck, data, tb)
-        timed('search_lazy_synthetic', search_lazy_synthetic, ck)
-        timed('search_multi_db', search_multi_db, ck, data, tb)
-    searches()
-    if join():
-        # a tie stage found a disagreement while the searches ran with the small budgets: search again, escalated (ck.budget)
-        ck.notes.append('a tie was broken by a stage that ran beside the searches: searches repeated with the thorough budgets')
-        searches()
+            [('corr_writer_reader', corr_writer_reader, ())],
+            [('corr_lines', corr_lines, ())],
+            [('corr_binary_records', corr_binary_records, (data, tb)),
+             ('corr_head', corr_head, ())],
+            [('corr_strdict', corr_strdict, ()),
+             ('corr_lazy', corr_lazy, (data, tb, via))],
+        ], searches=False)
+    join_searches()
+    if (join() or ck.tie_broken) and not first_escalated:
+        # a tie was broken by the build or by a tie stage while the searches ran with the small budgets: search again, escalated
+        ck.notes.append('a tie was broken by the build or by a stage that ran beside the searches: searches repeated with the thorough budgets')
+        start_workers(ck, search_groups(data, tb), searches=True, escalate=True)()
     keys = {v['key'] for v in ck.violations}
     # Failed obligations are explained by a concrete violation of the same mechanism (with a replayable input).
     if any(k.startswith('longstring:empty-text') or k.startswith('bundled-db-export-unparseable:empty-display-name') for k in keys):
@@ -3197,6 +3335,46 @@ def replay(data: dict) -> int:
         print('read back :', 'PARSE ERROR' if back is None else repr(back[-80:]))
         print('round trip:', ok)
         return 0 if ok else 1
+    if kind == 'stage':
+        # a search stage that raised an unexpected exception or did not terminate: run it again (same seed, same budgets)
+        import signal
+        import traceback
+
+        class ReplayCk:
+            def __init__(self) -> None:
+                self.seed, self.tier, self.thorough = r['seed'], r['tier'], r['tier'] == 'thorough'
+                self.rng = random.Random(f'{r["seed"]}:{r["stage"]}')
+                self.extra: dict = {}
+                self.notes: list = []
+                self.found: list = []
+
+            def budget(self, q: int, t: int) -> int:
+                return t if self.thorough else q
+
+            def count(self, *a: Any, **k: Any) -> None:
+                pass
+            hist = seen = sample = count
+
+            def violation(self, key: str, what: str, rep: Any, no_input: bool = False) -> None:
+                print('VIOLATION', key, ':', what)
+                self.found.append(key)
+        fn, args = search_stage(r['stage'])
+        rck = ReplayCk()
+        limit = STAGE_LIMIT_SEARCH_THOROUGH if rck.thorough else STAGE_LIMIT_SEARCH_QUICK
+
+        def on_alarm(*_: Any) -> None:
+            raise TimeoutError(f'{r["stage"]} did not finish within {limit} s')
+        signal.signal(signal.SIGALRM, on_alarm)
+        signal.alarm(limit)
+        try:
+            fn(rck, *args)
+        except BaseException:   # noqa: BLE001
+            traceback.print_exc()
+            print('VIOLATION: the stage raised / did not terminate')
+            return 1
+        finally:
+            signal.alarm(0)
+        return 1 if rck.found else 0
     if kind == 'type_text':
         print(r['text'])
         found_t = check_type_text([tuple(x) for x in r['lines']])
